@@ -116,7 +116,15 @@ V6 = ('::1', '::', '1:2:3:4:5:6:7:8', '1:2:3:4:5:6:7:8:9', '1:2:3:4:5:6:7',
       'fe80::1%' + 'a' * 16, 'fe80::1%a%b', '::1%%', 'fe80::1%eth0%',
       '::ffff:1.2.3.4', '::ffff:1.2.3.256', '1::2::3', 'g::1', '', '1.2.3.4',
       '::1\x00', ':::', '1:2:3:4:5:6:7::', '%eth0', '::1/64', '12345::1',
-      'fe80::1%a/b', 'fe80::1%a b')
+      'fe80::1%a/b', 'fe80::1%a b',
+      # maximal-length spellings, alone and with a maximal scope id
+      'fe80:0000:0000:0000:0204:61ff:fe9d:f156',
+      'fe80:0000:0000:0000:0204:61ff:fe9d:f156%enp3s0',
+      'fe80:0000:0000:0000:0204:61ff:fe9d:f156%' + 'z' * 15,
+      '0000:0000:0000:0000:0000:ffff:192.168.100.100',
+      '0000:0000:0000:0000:0000:ffff:192.168.100.100%' + 'z' * 15,
+      '0000:0000:0000:0000:0000:ffff:192.168.100.100%' + 'z' * 16,
+      '0000:0000:0000:0000:0000:0000:0000:00001')
 CIDRS = ('10.0.0.0/8', '10.0.0.0/0', '10.0.0.0/32', '10.0.0.0/33',
          '10.0.0.0/-1', '10.0.0.0/', '10.0.0.0', '10.0.0.0//8',
          '10.0.0.0/8/8', '10.0.0.0/8/', '/8', '', '::/0', '::/128', '::/129',
@@ -297,7 +305,9 @@ def _mac(ctx):
 
             def hook(i, name, fv, args, kwargs):
                 if name in rxmodel.MODES:
-                    seen['rx'] = (args[0], name)
+                    seen['rx'] = (args[0], name, args[1] if len(args) > 1
+                                  else None, args[2] if len(args) > 2 else
+                                  kwargs.get('flags'))
                 return inner(i, name, fv, args, kwargs)
             interp.on_call = hook
             interp.types[addr] = kind
@@ -314,13 +324,27 @@ def _mac(ctx):
     rx = seen.get('rx')
     if rx and isinstance(rx[0], K) and isinstance(rx[0].v, str) and \
             rx[1].endswith('match'):
-        tree = R.parse(rx[0].v, 0)
+        flags = rx[3].v if isinstance(rx[3], K) and \
+            isinstance(rx[3].v, int) else 0
+        tree = R.parse(rx[0].v, flags)
         seq, _a, a_end = R.strip_anchors(tree)
-        spec, _b, _c = R.strip_anchors(R.parse(
-            '[0-9a-f]{2}(:[0-9a-f]{2}){5}'))
         alphabet = set(range(32, 127)) | {10}
+        subject = rx[2]
+        lowered = isinstance(subject, T) and subject.op == 'mcall' and \
+            subject.args[1] == 'lower'
+        if lowered:
+            # the pattern only ever sees lower-cased text
+            alphabet -= set(range(ord('A'), ord('Z') + 1))
+            spec_src = '[0-9a-f]{2}(:[0-9a-f]{2}){5}'
+        elif subject is addr or subject == addr:
+            spec_src = '[0-9a-fA-F]{2}(:[0-9a-fA-F]{2}){5}'
+        else:
+            rep.info('R11.3', 'is_valid_mac:pattern', 'pattern applied to '
+                     '%s; grid check only' % show(subject))
+            return
+        spec, _b, _c = R.strip_anchors(R.parse(spec_src))
         try:
-            w = R.difference_witness(seq, 0, spec, 0, alphabet)
+            w = R.difference_witness(seq, flags, spec, 0, alphabet)
         except AnalysisError as e:
             rep.undecided('R11.3', 'is_valid_mac:pattern', str(e))
             return
